@@ -129,6 +129,27 @@ func checkC02(c *km.Ctx) {
 							}
 							continue
 						}
+						// the standard names kept in a package-level array and copied in by a loop over all of it
+						if u, isU := km.Unwrap(x.Key).(*ssa.UnOp); isU && u.Op == token.MUL {
+							if ia, isIA := u.X.(*ssa.IndexAddr); isIA {
+								if g, isG := ia.X.(*ssa.Global); isG {
+									names, okN := globalArrayStrings(c, g)
+									vs, okv := km.ConstString(x.Value)
+									distinct := map[string]bool{}
+									for _, nm := range names {
+										if standardSSHExtensions[nm] {
+											distinct[nm] = true
+										} else {
+											okN = false
+										}
+									}
+									if okN && okv && vs == "" && isWholeRangeIndex(ia.Index) {
+										nStdPerMap[h] += len(distinct)
+										continue
+									}
+								}
+							}
+						}
 						if !fromCustom(x.Key) || !fromCustom(x.Value) {
 							okAll, bad = false, "extension from "+km.ValStr(x.Key)
 							continue
@@ -732,4 +753,25 @@ func checkNormaliser(c *km.Ctx, s *km.Sem) {
 	if n == 0 {
 		c.R.AnchorLost("R-C02-5", "returns of reprocessUsername")
 	}
+}
+
+// isWholeRangeIndex: idx is the index of a `for ... range` loop (the rangeindex phi plus one, starting from -1).
+func isWholeRangeIndex(idx ssa.Value) bool {
+	b, ok := km.Unwrap(idx).(*ssa.BinOp)
+	if !ok || b.Op != token.ADD {
+		return false
+	}
+	if k, isC := km.ConstInt(b.Y); !isC || k != 1 {
+		return false
+	}
+	p, ok := b.X.(*ssa.Phi)
+	if !ok || p.Comment != "rangeindex" {
+		return false
+	}
+	for _, e := range p.Edges {
+		if k, isC := km.ConstInt(e); isC && k == -1 {
+			return true
+		}
+	}
+	return false
 }
